@@ -424,7 +424,8 @@ def field_uses(fx, owner_rx, field, crates=None):
                     continue
                 for pl in _places_in(s["rv"]):
                     if _proj_has(pl, r, field):
-                        out.append((b, s.get("line"), "read"))
+                        mutref = s["rv"].get("ref") is pl and s["rv"].get("mut") and _last_field_is(pl, field)
+                        out.append((b, s.get("line"), "write" if mutref else "read"))
                 lhs = s["lhs"]
                 if "p" in lhs and _proj_has(lhs, r, field):
                     last = [e for e in lhs["p"] if e[0] == "f"]
@@ -434,6 +435,11 @@ def field_uses(fx, owner_rx, field, crates=None):
                 if _proj_has(pl, r, field):
                     out.append((b, t.get("line"), "read"))
     return out
+
+
+def _last_field_is(pl, field):
+    fs = [e for e in pl.get("p", ()) if e[0] == "f"]
+    return bool(fs) and fs[-1][2] == field
 
 
 def _proj_has(pl, owner_rx, field):
